@@ -1,12 +1,15 @@
 """C13 — guarantees hold under every option setting; purging never touches live data
 (T1: the purge / commit range arithmetic regenerated from segment.c + theorem; the oracles of C01-C05/C12 re-run under a pairwise
 covering array of option rows, in the release build (content check: a purge of live data zeroes it) and in the MI_DEBUG build where
-decommit really revokes access (a stray access faults))."""
+decommit really revokes access (a stray access faults); T1 again: the generated mi_segment_purge / mi_arena_purge /
+mi_arena_schedule_purge only touch the range they were given (frame theorems); the real segment / arena commit and purge functions driven
+directly, without refusals, under purge delays 0 / 10 / off with per-page accessibility recorded by the OS shim)."""
 import os
 import vcommon as V
 from checks import seqcommon
 
 TRUSTED = ['Lean 4 kernel', 'translator extract/translate.py (mi_segment_commit_mask, _mi_align_up/_mi_align_down; validated against the compiled functions in C16\'s translator validation)',
+           'translators extract/masktr.py (mi_segment_purge) and extract/arenatr.py (mi_arena_purge, mi_arena_schedule_purge) with their hand-written preludes Gen/CommitPrelude.lean, Gen/ArenaPrelude.lean (bitmap primitives and OS calls interpreted on unit / block ranges); validated step by step against the running functions by the C07 check',
            'the models of C01/C03/C04/C05/C12 do not mention options: their theorems hold for every setting; what options change (which ranges get committed / purged / recommitted, arena use) is proved for the range arithmetic only and searched by the option-row oracle for the rest',
            'hardware accessibility is observed, not proved: SIGSEGV in the MI_DEBUG build, zeroed contents in the release build']
 
@@ -17,7 +20,7 @@ def run(chk):
     chk.assumptions = ['12 option rows = pairwise covering array over purge_delay {-1,0,1,10}, purge_decommits, eager_commit, eager_commit_delay, arena_eager_commit {0,1,2}, disallow_arena_alloc, arena_reserve {64 MiB, 1 GiB}, abandoned_reclaim_on_free, target_segments_per_thread {0,2}',
                        'time-dependent purging (delays 1 and 10 ms) uses the real clock in this oracle; the virtual-clock treatment is C18']
     chk.extra['rule'] = ('obligations = theorems of Props/C13.lean over regenerated definitions; evaluations = API calls of the shadow oracle summed over option rows and builds; distinct = (row, build, seed) runs')
-    chk.lean('MiVerif.Props.C13', groups=['Arith'])
+    chk.lean('MiVerif.Props.C13', groups=['Arith', 'Commit', 'ArenaGen'])
     thorough = chk.tier == 'thorough'
     with V.Scratch() as d:
         hs = seqcommon.build(chk, d)
@@ -34,3 +37,28 @@ def run(chk):
             seqcommon.run(chk, hd, [(chk.seed * 70 + 20 + r, ops // 2, r, 0) for r in drows], pre, tag='dbg', timeout=900,
                           crash_key=lambda cmd: 'C13/debug_reset_touches_uncommitted' if cmd[3] == '3' else 'C13/seq-crash')
         chk.extra['option_rows_run'] = rows
+        # ---- lazy commit / purge of segments and arenas driven directly (the C07 harness without refusals): after every step no unit
+        # or block recorded as committed may be inaccessible and a range handed out as committed must be writable; purge delays 0 / 10 / off
+        jobs = []
+        for tag, flags in (('rel', list(V.RELEASE)), ('dbg', ['-DMI_DEBUG=2'])):
+            h = os.path.join(d, 'c07_' + tag)
+            ok, log = V.cc_harness(os.path.join(V.HARNESS, 'c07.c'), h, flags=flags + ['-DVERIF_STATIC_C="%s/src/static.c"' % V.REPO])
+            if not ok:
+                chk.broken_tie('commit / purge direct-drive harness (%s) does not compile against the current tree' % tag, log[-1500:]); continue
+            for sd in range(chk.seed, chk.seed + (6 if thorough else 2)):
+                jobs.append((tag, [h, 'seg', str(sd), '400']))
+                for dl in ('0', '10', '-1'):
+                    jobs.append((tag, [h, 'arena', str(sd), '300', dl]))
+        outs = V.pmap([(['env', 'C07_NOINJECT=1'] + cmd, None, 300) for _, cmd in jobs])
+        nsteps = 0
+        for (tag, cmd), (rc, out, err) in zip(jobs, outs):
+            args = {'build': tag, 'cmd': 'C07_NOINJECT=1 harness/c07 ' + ' '.join(cmd[1:])}
+            if rc != 0 or 'DONE' not in out:
+                chk.violation('C13/commit-drive-crash', 'segment / arena commit and purge functions crashed when driven directly (%s build, %s): %s' % (tag, ' '.join(cmd[1:]), (err or out)[-300:].replace('\n', ' ')), args); continue
+            for l in out.splitlines():
+                if l.startswith('FAIL'):
+                    chk.violation('C13/' + l.split()[1], 'real allocator, %s build, %s (no refusals): %s' % (tag, ' '.join(cmd[1:]), l[5:300]), args)
+                elif l[:2] in ('S ', 'A '):
+                    nsteps += 1; chk.count()
+        chk.extra['commit_purge_direct_drive_steps'] = nsteps
+        chk.log('commit / purge direct drive without refusals: %d steps' % nsteps)
